@@ -1416,4 +1416,93 @@ def readerRun (r : ReaderKind) : List (List Text × Bool) → List (Option ReadR
   | [] => []
   | i :: is => (readerStep r i).2 :: readerRun (readerStep r i).1 is
 
+/-! ## F. phase 4: whole sparse ARFF files (spec side), the fallback parser on plain lines, CPython numerals -/
+
+/-- a sparse item as written: the column index in decimal digits and the cell -/
+def sparseTok (x : Text × CellW) : Text × Text := (x.1, x.2.text)
+
+/-- a sparse data line `{i v, i v, …}` -/
+def sparseRowLine (pad : Nat) (row : List (Text × CellW)) : Text := sparseWriteRow pad (row.map sparseTok)
+
+/-- what the reader must return for a written item: the column's name and the cell as the column's encoder gives it -/
+def sparseItemOut (names : List Text) (encs : List Enc) (x : Text × CellW) : Option (Text × Cell) :=
+  match names[(digitsVal x.1).toNat]?, encs[(digitsVal x.1).toNat]? with
+  | some nm, some e => some (nm, x.2.out e)
+  | _, _ => none
+
+/-- what an omitted column reads as (coba's sparse convention): a numeric 0 is simply absent, a string column
+reads `'0'`, a nominal column its level `'0'` -/
+def sparseDefaultCell : Enc → Option Cell
+  | .numeric => none
+  | .str => some (.str ZERO)
+  | .nominal lv => if lv.contains ZERO then some (.cat ZERO lv) else none
+
+/-- the default entries of a row: every column that was not written and has a default cell, in column order -/
+def sparseDefaultAt (names : List Text) (encs : List Enc) (written : List Int) (i : Nat) : Option (Text × Cell) :=
+  if written.contains (i : Int) then none
+  else match names[i]?, encs[i]? with
+    | some nm, some e => (match sparseDefaultCell e with | some c => some (nm, c) | none => none)
+    | _, _ => none
+
+def sparseDefaults (names : List Text) (encs : List Enc) (written : List Int) : List (Text × Cell) :=
+  (List.range encs.length).filterMap (sparseDefaultAt names encs written)
+
+/-- the row the reader must return: written items in written order, then the defaults -/
+def sparseRowOut (names : List Text) (encs : List Enc) (row : List (Text × CellW)) : List (Text × Cell) :=
+  row.filterMap (sparseItemOut names encs) ++ sparseDefaults names encs (row.map (fun x => digitsVal x.1))
+
+/-- hypotheses on a sparse row: `sparseRowOk` (decimal indices, distinct, in range; bare values — C12-F10) and
+every cell fits its column (`cellWOk`: float literals, no `?` inside strings/levels, no level named `?`) -/
+def sparseRowWOk (n : Nat) (encs : List Enc) (row : List (Text × CellW)) : Bool :=
+  sparseRowOk n (row.map sparseTok) &&
+  row.all (fun x => match encs[(digitsVal x.1).toNat]? with
+    | some e => cellWOk e (false, x.2)
+    | none => false)
+
+/-! ### the fallback parser on plain (unquoted) lines -/
+
+/-- a value on which the csv fast path and the fallback parser `_dense_advanced` agree: written bare (`bareOk`:
+no comma, quote character, backslash, line break; no leading blank), not empty (the fallback indexes `item[0]`)
+and not starting with other white space (the fallback `lstrip`s, csv only skips blanks) -/
+def plainTok (v : Text) : Bool :=
+  bareOk v && (match v with | c :: _ => !isPySpace c | [] => false)
+
+/-- values separated by a comma and `pad` blanks, nothing quoted -/
+def plainRowLine (pad : Nat) (vs : List Text) : Text := arffWriteRow SQ (fun _ => false) pad (vs.map (fun v => (false, v)))
+
+/-! ### `int()` / `float()` as CPython reads them -/
+
+def US : Nat := 95
+
+/-- PEP 515: an underscore is allowed only between two digits; they are dropped.  `none` = misplaced underscore -/
+def dropUsGo (prevDigit : Bool) : Text → Option Text
+  | [] => some []
+  | c :: t =>
+    if c = US then
+      (match t with
+       | d :: _ => if prevDigit && isDigit d then dropUsGo false t else none
+       | [] => none)
+    else (dropUsGo (isDigit c) t).map (c :: ·)
+
+def dropUs (t : Text) : Option Text := dropUsGo false t
+
+/-- what `int()` / `float()` strip: Unicode white space, but of the ASCII range only blank and `\t \n \v \f \r`
+(`Py_ISSPACE`) — the separators `\x1c`–`\x1f`, which `str.strip()` removes, are NOT skipped (found by the phase 4 generator) -/
+def isNumSpace (c : Nat) : Bool := isPySpace c && !(28 ≤ c && c ≤ 31)
+
+def stripNum (t : Text) : Text := ((t.dropWhile isNumSpace).reverse.dropWhile isNumSpace).reverse
+
+/-- `int(tok)` (base 10) for ASCII text: surrounding white space, sign, digits with single underscores between them
+(non-ASCII decimal digits, which CPython also accepts, are not modelled) -/
+def parseIntPy (tok : Text) : Option Int :=
+  match dropUs (stripNum tok) with
+  | some t => if t = strip t then parseInt t else none
+  | none => none
+
+/-- `float(tok)` succeeds, for ASCII text: as `isFloatLit` plus underscores between digits -/
+def isFloatLitPy (tok : Text) : Bool :=
+  match dropUs (stripNum tok) with
+  | some t => t == strip t && isFloatLit t
+  | none => false
+
 end Coba.C12
